@@ -6,7 +6,7 @@ Scripts are lists of integers: [nslots, op, x, y, z, op, x, y, z, ...].
 M = 1000000007
 
 OPS = {"NEW": 0, "LINK": 1, "UNLINK": 2, "DROP": 3, "ARR": 4, "ARRSET": 5, "CHURN": 6, "SUM": 7, "GCFULL": 8,
-       "GCMINOR": 9, "STR": 10, "DEEP": 11, "PAIRS": 12, "CLOSURE": 13, "GLOBAL": 14, "SUMALL": 15}
+       "GCMINOR": 9, "STR": 10, "DEEP": 11, "PAIRS": 12, "CLOSURE": 13, "GLOBAL": 14, "SUMALL": 15, "KEEPCHURN": 16}
 
 
 class Node:
@@ -150,6 +150,12 @@ class World:
                 self.out.append("global %d" % self.checksum(self.glob))
             else:
                 self.glob = None
+        elif op == 16:
+            for i in range(x):
+                n = self.new_node(1)
+                if y > 0 and i % y == 0:
+                    n.a = self.slots[z % ns]
+                    self.slots[z % ns] = n
         elif op == 15:
             total = 0
             for i in range(ns):
@@ -203,10 +209,10 @@ def generate(rng, max_ops=200, live_limit=256 * 1024, profile=None):
     if profile == "oldwrite":
         return generate_oldwrite(rng), profile
     weights = {
-        "mixed": dict(NEW=10, LINK=10, UNLINK=3, DROP=4, ARR=3, ARRSET=6, CHURN=4, SUM=6, GCFULL=1, GCMINOR=2, STR=2, DEEP=2, PAIRS=2, CLOSURE=2, GLOBAL=2, SUMALL=2),
+        "mixed": dict(NEW=10, LINK=10, UNLINK=3, DROP=4, ARR=3, ARRSET=6, CHURN=4, SUM=6, GCFULL=1, GCMINOR=2, STR=2, DEEP=2, PAIRS=2, CLOSURE=2, GLOBAL=2, SUMALL=2, KEEPCHURN=1),
         "links": dict(NEW=12, LINK=20, UNLINK=6, DROP=5, SUM=6, GCMINOR=2, GCFULL=1, SUMALL=2, CHURN=3),
         "arrays": dict(NEW=8, ARR=8, ARRSET=20, LINK=4, DROP=3, SUM=6, CHURN=3, GCMINOR=2, GCFULL=1, SUMALL=2, PAIRS=4),
-        "churn": dict(NEW=5, LINK=4, CHURN=20, SUM=4, DROP=2, STR=3, SUMALL=1),
+        "churn": dict(NEW=5, LINK=4, CHURN=14, KEEPCHURN=8, SUM=4, DROP=2, STR=3, SUMALL=1),
         "deep": dict(NEW=6, LINK=6, DEEP=10, SUM=4, CHURN=3, GCMINOR=1, CLOSURE=3),
         "interior": dict(NEW=8, PAIRS=10, CLOSURE=8, GLOBAL=6, LINK=6, SUM=6, DROP=3, CHURN=4, SUMALL=2, GCMINOR=2),
     }[profile]
@@ -237,6 +243,11 @@ def generate(rng, max_ops=200, live_limit=256 * 1024, profile=None):
                 # the 64 KiB page, many of them
                 x = rng.choice([50, 300, 1500])
                 y = rng.choice([4100, 5000, 8800, 12345, 20000])
+        elif name == "KEEPCHURN":
+            # survivors spread over the heap: one per 25..1000 allocated nodes; the number of
+            # survivors stays small (<= 400 nodes)
+            y = rng.choice([25, 100, 250, 1000])
+            x = min(rng.choice([2000, 20000, 100000, 300000]), 400 * y)
         elif name == "STR":
             y = rng.choice([0, 1, 5, 40, 120])
         elif name == "DEEP":
@@ -252,7 +263,7 @@ def generate(rng, max_ops=200, live_limit=256 * 1024, profile=None):
         before = list(script)
         script += [OPS[name], x, y, z]
         w.step(OPS[name], x, y, z)
-        if name in ("NEW", "ARR", "ARRSET", "LINK", "STR", "PAIRS", "CLOSURE", "GLOBAL") and live_bytes(w) > live_limit:
+        if name in ("NEW", "ARR", "ARRSET", "LINK", "STR", "PAIRS", "CLOSURE", "GLOBAL", "KEEPCHURN") and live_bytes(w) > live_limit:
             # free something instead: drop the slot we just grew
             script += [OPS["DROP"], x, 0, 0]
             w.step(OPS["DROP"], x, 0, 0)
